@@ -386,9 +386,10 @@ Full statement (does NOT hold on every import tree, see the remaining known find
   for every loaded tree, `resolveImports` returns a sheet with the same meaning — the rules of all reachable sheets in
   cascade order under the media of their @import edges, every URL resolving as before — and fetches nothing.
 What holds for EVERY tree: `resolveImports` does not raise HierarchyRequestErr (`resolveImports_never_raises_hierarchy`).
-The full specification holds on trees described by `Flat` (every target available, every group with media consists
-of comments and style rules after flattening); what is missing for the others is the place and the href of an
-@import that has to be kept (C19-kept-import-hoisted, C19-kept-import-not-rebased). -/
+What holds for every tree without @namespace rules, kept imports included: `resolveImports` is the specification
+`flatSpec` (section "T19.3 with kept imports" below) — in which the three deviations from the full statement are visible.
+On trees described by `Flat` (every target available, every group with media consists of comments and style rules
+after flattening: nothing is kept) the specification is the full statement: -/
 
 /-- T19.3 [W1]: `resolveImports` computes exactly the specified flattening — cascade order, marker comment, re-basing
 with the @import's href, wrapping in the @import's media, @charset dropped — appended to the target, and no fetcher
